@@ -264,16 +264,19 @@ def run_job(w, job_modules, harnesses, outdir, jobs=16, harness_timeout=600, tot
         for c in failed:
             kinds.setdefault(classify_check(c), []).append(c)
         # vacuity guard: every `kani::cover!(true, "verif-reached: ...")` marker must be satisfiable
-        reach = [c for c in checks if 'verif-reached' in (c.get('description') or '')]
-        # a cover with a compound condition is split by short-circuit evaluation: satisfied if any instance is
+        # vacuity markers: `kani::cover!(cond, "verif-reached: ..")` must be satisfiable; "verif-maybe: .." markers (in
+        # contract functions shared by differently constrained harnesses) are informational, but at least one marker
+        # of either kind must be satisfiable in every harness
+        reach = [c for c in checks if 'verif-reached' in (c.get('description') or '') or 'verif-maybe' in (c.get('description') or '')]
         groups = {}
         for c in reach:
             key = (c.get('description'), json.dumps(c.get('location'), sort_keys=True))
             groups.setdefault(key, []).append((c.get('status') or '').lower())
-        unsat_covers = [{'description': k[0]} for k, sts in groups.items() if not any(x in ('satisfied', 'success') for x in sts)]
+        sat = lambda sts: any(x in ('satisfied', 'success') for x in sts)
+        unsat_covers = [{'description': k[0]} for k, sts in groups.items() if 'verif-reached' in k[0] and not sat(sts)]
         covers = reach
-        if not groups:
-            unsat_covers = [{'description': 'no verif-reached marker in harness'}]
+        if not groups or not any(sat(sts) for sts in groups.values()):
+            unsat_covers = unsat_covers or [{'description': 'no satisfiable vacuity marker in harness'}]
         pd = pdet.get(hid, {})
         res['harness'][h.name] = {
             'id': hid, 'status': r.get('status'), 'duration_ms': r.get('duration_ms'),
@@ -319,7 +322,7 @@ def trace_values(w, mod, h, timeout=900):
         end = b.find('\nViolated property:')
         if end < 0: continue
         v = b[end:end+900]
-        if 'cover condition' in v or 'verif-reached' in v: continue
+        if 'cover condition' in v or 'verif-reached' in v or 'verif-maybe' in v: continue
         body = b[:end]; viol = v
         break
     if body is None:
